@@ -221,6 +221,10 @@ class QuotaDistributor:
         quota_val = self.quota_function(
             sum(votes.values()), n_seats
         )
+        if quota_val <= 0:
+            raise votelib.evaluate.core.VotingSystemError(
+                f'non-positive quota {quota_val} for {n_seats} seats'
+            )
         selected = {}
         for candidate, n_votes in votes.items():
             n_prev = prev_gains.get(candidate, 0)
